@@ -19,4 +19,5 @@ CONSTANTS
   PropReqVals = {4, 9}
   PropFees = {5}
   PropShapes = {"default", "last"}
-INVARIANTS TypeOK ErrorsExactlyWhenDocumented InputsExact FeeConservation SharesSumToFee ScriptsIntended RedeemerAmounts ChangeIffPositive EvenSplit SweepKeepsFunds SweepSpendsNamedUtxos SweepProposalErrors RedemptionPaysNamedRequests RedemptionProposalErrors
+  MaxFeeModes = {"high", "evenPart", "belowFirst"}
+INVARIANTS TypeOK ErrorsExactlyWhenDocumented InputsExact FeeConservation SharesSumToFee ScriptsIntended RedeemerAmounts ChangeIffPositive EvenSplit SweepKeepsFunds SweepSpendsNamedUtxos SweepProposalErrors RedemptionPaysNamedRequests RedemptionProposalErrors TxMaxFeeNotApplied
